@@ -14,9 +14,11 @@ def main(argv=None):
     mod = importlib.import_module('mc.props.%s' % a.pid.lower())
     check = mod.CHECK
     from . import driver
+    seed = int(os.environ.get('VERIF_SEED', '0') or 0)
+    if hasattr(check, 'run_custom'):
+        return check.replay(a.replay) if a.replay else check.run_custom(a.tier, seed)
     if a.replay:
         return driver.replay(check, a.replay)
-    seed = int(os.environ.get('VERIF_SEED', '0') or 0)
     return driver.run_check(check, a.tier, seed)
 
 
